@@ -655,27 +655,32 @@ theorem getElem?_lt {α} {l : List α} {i : Nat} {a : α} (h : l[i]? = some a) :
 
 /-- the binds the records rely on survive a `setAuthExternal` call made with the used names -/
 theorem recInv_survive {w : World} {brec : Nat → AuthRec} {binds binds' : List Bind}
-    (h : RecInv w brec binds)
-    (hk : ∀ b ∈ binds, b.port ∈ usedPorts w.paths.length brec → b ∈ binds') :
+    {used : List Int} (h : RecInv w brec binds)
+    (hsub : ∀ P, P ∈ usedPorts w.paths.length brec → P ∈ used)
+    (hk : ∀ b ∈ binds, b.port ∈ used → b ∈ binds') :
     RecInv w brec binds' := by
   intro i P hn
   obtain ⟨p, u, hp, hu, hb⟩ := h i P hn
-  exact ⟨p, u, hp, hu, hk _ hb (mem_usedPorts.mpr ⟨i, getElem?_lt hp, hn⟩)⟩
+  exact ⟨p, u, hp, hu, hk _ hb (hsub _ (mem_usedPorts.mpr ⟨i, getElem?_lt hp, hn⟩))⟩
+
+theorem usedPorts_sub_usedOf (v : Variant) (w : World) (st : St) :
+    ∀ P, P ∈ usedPorts w.paths.length st.brec → P ∈ usedOf v w st :=
+  fun _ h => List.mem_append_left _ h
 
 theorem inv_init (w : World) : Inv w {} := by
   refine ⟨sorted_nil, ?_⟩
   intro i P h
   simp at h
 
-theorem frontStep_inv {w : World} {u : Url} {signin : Bool} {st : St} (i : Nat) (h : Inv w st) :
-    Inv w (frontStep w u signin st i) := by
+theorem frontStep_inv {v : Variant} {w : World} {u : Url} {signin : Bool} {st : St} (i : Nat)
+    (h : Inv w st) : Inv w (frontStep v w u signin st i) := by
   obtain ⟨hs, hr⟩ := h
   obtain ⟨h1, h2, _⟩ := setAuth_spec (ext := w.isExternal) (lua := w.hasLua) (rs := w.rangeStart)
-    (re := w.rangeEnd) (used := usedPorts w.paths.length st.brec) (r0 := {}) (u := u) (signin := signin) hs
-  exact ⟨h1, recInv_survive hr h2⟩
+    (re := w.rangeEnd) (used := usedOf v w st) (r0 := {}) (u := u) (signin := signin) hs
+  exact ⟨h1, recInv_survive hr (usedPorts_sub_usedOf v w st) h2⟩
 
-theorem frontStep_brec {w : World} {u : Url} {signin : Bool} {st : St} (i : Nat) :
-    (frontStep w u signin st i).brec = st.brec := rfl
+theorem frontStep_brec {v : Variant} {w : World} {u : Url} {signin : Bool} {st : St} (i : Nat) :
+    (frontStep v w u signin st i).brec = st.brec := rfl
 
 theorem foldl_inv {w : World} (step : St → Nat → St) (hstep : ∀ st i, Inv w st → Inv w (step st i)) :
     ∀ (l : List Nat) (st : St), Inv w st → Inv w (l.foldl step st) := by
@@ -684,13 +689,15 @@ theorem foldl_inv {w : World} (step : St → Nat → St) (hstep : ∀ st i, Inv 
   | nil => intro st h; exact h
   | cons i l ih => intro st h; exact ih _ (hstep st i h)
 
-theorem hostPhase_inv {w : World} {st : St} (h : Nat) (hi : Inv w st) : Inv w (hostPhase w st h) := by
+theorem hostPhase_inv {v : Variant} {w : World} {st : St} (h : Nat) (hi : Inv w st) :
+    Inv w (hostPhase v w st h) := by
   unfold hostPhase
   split
   · exact foldl_inv _ (fun st i => frontStep_inv i) _ _ hi
   · exact hi
 
-theorem hostPhase_brec {w : World} {st : St} (h : Nat) : (hostPhase w st h).brec = st.brec := by
+theorem hostPhase_brec {v : Variant} {w : World} {st : St} (h : Nat) :
+    (hostPhase v w st h).brec = st.brec := by
   unfold hostPhase
   split
   · rename_i u _ _
@@ -700,7 +707,8 @@ theorem hostPhase_brec {w : World} {st : St} (h : Nat) : (hostPhase w st h).brec
     | cons i l ih => simp only [List.foldl_cons]; rw [ih]; rfl
   · rfl
 
-theorem authStep_inv {w : World} {st : St} (i : Nat) (h : Inv w st) : Inv w (authStep w st i) := by
+theorem authStep_inv {v : Variant} {w : World} {st : St} (i : Nat) (h : Inv w st) :
+    Inv w (authStep v w st i) := by
   obtain ⟨hs, hr⟩ := h
   unfold authStep
   split
@@ -709,8 +717,9 @@ theorem authStep_inv {w : World} {st : St} (i : Nat) (h : Inv w st) : Inv w (aut
     split
     · rename_i u hplc hurl
       obtain ⟨h1, h2, h3⟩ := setAuth_spec (ext := w.isExternal) (lua := w.hasLua) (rs := w.rangeStart)
-        (re := w.rangeEnd) (used := usedPorts w.paths.length st.brec) (r0 := st.brec i) (u := u)
+        (re := w.rangeEnd) (used := usedOf v w st) (r0 := st.brec i) (u := u)
         (signin := p.signin) hs
+      have hsub := usedPorts_sub_usedOf v w st
       refine ⟨h1, ?_⟩
       intro j P hn
       simp only [upd] at hn
@@ -719,13 +728,13 @@ theorem authStep_inv {w : World} {st : St} (i : Nat) (h : Inv w st) : Inv w (aut
         rw [if_pos rfl] at hn
         rcases h3 with h3 | ⟨P', h3, hb, _⟩
         · rw [h3] at hn
-          exact recInv_survive hr h2 j P hn
+          exact recInv_survive hr hsub h2 j P hn
         · rw [h3] at hn
           simp only [okRec, AuthName.proxy.injEq] at hn
           subst hn
           exact ⟨p, u, hp, hurl, hb⟩
       · rw [if_neg hj] at hn
-        exact recInv_survive hr h2 j P hn
+        exact recInv_survive hr hsub h2 j P hn
     · exact ⟨hs, hr⟩
 
 theorem oauthRec_name {fixed : Bool} {w : World} {p : PathIn} {r : AuthRec} {P : Int}
@@ -736,8 +745,8 @@ theorem oauthRec_name {fixed : Bool} {w : World} {p : PathIn} {r : AuthRec} {P :
   · repeat' split at h
     all_goals first | exact h | (simp at h; try exact h)
 
-theorem oauthStep_inv {fixed : Bool} {w : World} {st : St} (i : Nat) (h : Inv w st) :
-    Inv w (oauthStep fixed w st i) := by
+theorem oauthStep_inv {v : Variant} {w : World} {st : St} (i : Nat) (h : Inv w st) :
+    Inv w (oauthStep v w st i) := by
   obtain ⟨hs, hr⟩ := h
   unfold oauthStep
   split
@@ -753,20 +762,20 @@ theorem oauthStep_inv {fixed : Bool} {w : World} {st : St} (i : Nat) (h : Inv w 
     · rw [if_neg hj] at hn
       exact hr j P hn
 
-theorem backendPhase_inv {fixed : Bool} {w : World} {st : St} (b : Nat) (h : Inv w st) :
-    Inv w (backendPhase fixed w st b) := by
+theorem backendPhase_inv {v : Variant} {w : World} {st : St} (b : Nat) (h : Inv w st) :
+    Inv w (backendPhase v w st b) := by
   unfold backendPhase
   exact foldl_inv _ (fun st i => oauthStep_inv i) _ _ (foldl_inv _ (fun st i => authStep_inv i) _ _ h)
 
 /-- **invariant of every run** (both variants of `buildBackendOAuth`, every host and backend order) -/
-theorem run_inv (fixed : Bool) (w : World) (ho bo : List Nat) : Inv w (run fixed w ho bo) := by
+theorem run_inv (v : Variant) (w : World) (ho bo : List Nat) : Inv w (run v w ho bo) := by
   unfold run
   exact foldl_inv _ (fun st b => backendPhase_inv b) _ _ (foldl_inv _ (fun st h => hostPhase_inv h) _ _ (inv_init w))
 
 /-! ### the record of one path through the run -/
 
-theorem authStep_other {w : World} {st : St} {i j : Nat} (h : j ≠ i) :
-    (authStep w st j).brec i = st.brec i := by
+theorem authStep_other {v : Variant} {w : World} {st : St} {i j : Nat} (h : j ≠ i) :
+    (authStep v w st j).brec i = st.brec i := by
   unfold authStep
   split
   · rfl
@@ -774,8 +783,8 @@ theorem authStep_other {w : World} {st : St} {i j : Nat} (h : j ≠ i) :
     · simp only [upd]; rw [if_neg (Ne.symm h)]
     · rfl
 
-theorem oauthStep_other {fixed : Bool} {w : World} {st : St} {i j : Nat} (h : j ≠ i) :
-    (oauthStep fixed w st j).brec i = st.brec i := by
+theorem oauthStep_other {v : Variant} {w : World} {st : St} {i j : Nat} (h : j ≠ i) :
+    (oauthStep v w st j).brec i = st.brec i := by
   unfold oauthStep
   split
   · rfl
@@ -824,15 +833,14 @@ def PostAuth (w : World) (p : PathIn) (r : AuthRec) : Prop :=
         resolveTarget w.isExternal w.hasLua u = some u.target)) ∨
   (¬ (ownPlc p = .backend ∧ p.url.nonEmpty) ∧ r = {})
 
-theorem authStep_post {w : World} {st : St} {i : Nat} {p : PathIn} (hp : w.paths[i]? = some p)
-    (h0 : st.brec i = {}) : PostAuth w p ((authStep w st i).brec i) := by
+theorem authStep_post {v : Variant} {w : World} {st : St} {i : Nat} {p : PathIn}
+    (hp : w.paths[i]? = some p) (h0 : st.brec i = {}) :
+    PostAuth w p ((authStep v w st i).brec i) := by
   unfold authStep
   rw [hp]
   simp only
   split
   · rename_i u hplc hurl
-    have hs := @setAuth_spec w.isExternal w.hasLua w.rangeStart w.rangeEnd
-      (usedPorts w.paths.length st.brec) st.binds (st.brec i) u p.signin
     simp only [upd]
     left
     refine ⟨u, hplc, hurl, ?_⟩
@@ -851,7 +859,7 @@ theorem authStep_post {w : World} {st : St} {i : Nat} {p : PathIn} (hp : w.paths
         | some P => exact Or.inr ⟨P, rfl, by first | rfl | trivial⟩
         | none =>
           simp only
-          cases acquire (removeExcept (usedPorts w.paths.length st.brec) st.binds) w.rangeStart w.rangeEnd u.target with
+          cases acquire (removeExcept (usedOf v w st) st.binds) w.rangeStart w.rangeEnd u.target with
           | mk o2 b2 =>
             cases o2 with
             | some P => exact Or.inr ⟨P, rfl, by first | rfl | trivial⟩
@@ -865,9 +873,9 @@ theorem authStep_post {w : World} {st : St} {i : Nat} {p : PathIn} (hp : w.paths
     | absent => rw [hu] at h2; cases h2
     | empty => rw [hu] at h2; cases h2
 
-theorem oauthStep_self {fixed : Bool} {w : World} {st : St} {i : Nat} {p : PathIn}
+theorem oauthStep_self {v : Variant} {w : World} {st : St} {i : Nat} {p : PathIn}
     (hp : w.paths[i]? = some p) :
-    (oauthStep fixed w st i).brec i = oauthRec fixed w p (st.brec i) := by
+    (oauthStep v w st i).brec i = oauthRec v.oauthOwn w p (st.brec i) := by
   unfold oauthStep
   rw [hp]
   simp [upd]
@@ -952,21 +960,21 @@ theorem backendIdxs_nodup (w : World) (b : Nat) : (backendIdxs w b).Nodup := by
   exact List.Nodup.sublist List.filter_sublist List.nodup_range
 
 /-- the record of path `i` after the phase of its own backend, from a fresh record -/
-theorem backendPhase_own {fixed : Bool} {w : World} {st : St} {i : Nat} {p : PathIn}
+theorem backendPhase_own {v : Variant} {w : World} {st : St} {i : Nat} {p : PathIn}
     (hp : w.paths[i]? = some p) (h0 : st.brec i = {}) :
-    ∃ r1, PostAuth w p r1 ∧ (backendPhase fixed w st p.backend).brec i = oauthRec fixed w p r1 := by
+    ∃ r1, PostAuth w p r1 ∧ (backendPhase v w st p.backend).brec i = oauthRec v.oauthOwn w p r1 := by
   have hi : i ∈ backendIdxs w p.backend := mem_backendIdxs.mpr ⟨p, hp, rfl⟩
   have hn := backendIdxs_nodup w p.backend
   unfold backendPhase
-  have h1 := foldl_once (authStep w) i (fun r r' => r = {} → PostAuth w p r')
+  have h1 := foldl_once (authStep v w) i (fun r r' => r = {} → PostAuth w p r')
     (fun st j hj => authStep_other hj) (fun st h => authStep_post hp h) _ st hn hi h0
   refine ⟨_, h1, ?_⟩
-  exact foldl_once (oauthStep fixed w) i (fun r r' => r' = oauthRec fixed w p r)
+  exact foldl_once (oauthStep v w) i (fun r r' => r' = oauthRec v.oauthOwn w p r)
     (fun st j hj => oauthStep_other hj) (fun st => oauthStep_self hp) _ _ hn hi
 
-theorem backendPhase_other {fixed : Bool} {w : World} {st : St} {i b : Nat} {p : PathIn}
+theorem backendPhase_other {v : Variant} {w : World} {st : St} {i b : Nat} {p : PathIn}
     (hp : w.paths[i]? = some p) (hb : p.backend ≠ b) :
-    (backendPhase fixed w st b).brec i = st.brec i := by
+    (backendPhase v w st b).brec i = st.brec i := by
   have hi : i ∉ backendIdxs w b := by
     intro h
     obtain ⟨p', hp', hb'⟩ := mem_backendIdxs.mp h
@@ -974,23 +982,23 @@ theorem backendPhase_other {fixed : Bool} {w : World} {st : St} {i b : Nat} {p :
     injection hp' with hp'
     exact hb (hp' ▸ hb')
   unfold backendPhase
-  rw [foldl_untouched (oauthStep fixed w) i (fun st j hj => oauthStep_other hj) _ _ hi,
-      foldl_untouched (authStep w) i (fun st j hj => authStep_other hj) _ _ hi]
+  rw [foldl_untouched (oauthStep v w) i (fun st j hj => oauthStep_other hj) _ _ hi,
+      foldl_untouched (authStep v w) i (fun st j hj => authStep_other hj) _ _ hi]
 
 /-- **the record of path `i` at the end of a run**: `buildBackendOAuth` applied to the result of
 `buildBackendAuthExternal` on a fresh record — the steps of all other paths, hosts and backends
 leave it alone -/
-theorem run_brec {fixed : Bool} {w : World} {ho bo : List Nat} {i : Nat} {p : PathIn}
+theorem run_brec {v : Variant} {w : World} {ho bo : List Nat} {i : Nat} {p : PathIn}
     (hp : w.paths[i]? = some p) (hbo : bo.Nodup) (hmem : p.backend ∈ bo) :
-    ∃ r1, PostAuth w p r1 ∧ (run fixed w ho bo).brec i = oauthRec fixed w p r1 := by
+    ∃ r1, PostAuth w p r1 ∧ (run v w ho bo).brec i = oauthRec v.oauthOwn w p r1 := by
   unfold run
-  have hstart : (ho.foldl (hostPhase w) {}).brec i = {} := by
-    suffices ∀ (s : St), (ho.foldl (hostPhase w) s).brec = s.brec by
+  have hstart : (ho.foldl (hostPhase v w) {}).brec i = {} := by
+    suffices ∀ (s : St), (ho.foldl (hostPhase v w) s).brec = s.brec by
       rw [this]
     induction ho with
     | nil => intro s; rfl
     | cons h ho ih => intro s; simp only [List.foldl_cons]; rw [ih, hostPhase_brec]
-  generalize ho.foldl (hostPhase w) {} = s at hstart
+  generalize ho.foldl (hostPhase v w) {} = s at hstart
   induction bo generalizing s with
   | nil => cases hmem
   | cons b bo ih =>
@@ -998,11 +1006,11 @@ theorem run_brec {fixed : Bool} {w : World} {ho bo : List Nat} {i : Nat} {p : Pa
     simp only [List.foldl_cons]
     by_cases he : p.backend = b
     · subst he
-      obtain ⟨r1, hr1, hfin⟩ := backendPhase_own (fixed := fixed) hp hstart
+      obtain ⟨r1, hr1, hfin⟩ := backendPhase_own (v := v) hp hstart
       refine ⟨r1, hr1, ?_⟩
       rw [← hfin]
       -- the remaining backends are different ones
-      generalize backendPhase fixed w s p.backend = s'
+      generalize backendPhase v w s p.backend = s'
       clear hfin hstart ih
       induction bo generalizing s' with
       | nil => rfl
